@@ -245,6 +245,39 @@ Theorem C01_rejects_before_advance_turn_prefix_refuted :
     turn_step_prefix (script_sim f2_sc) m acts = (ROut o, m').
 Proof. exact f2_refuted. Qed.
 
+(* ---- reward conservation on the scripted (accumulate-and-reset) simulation, one accepted
+        step of any manager: [p1] is what is pending per agent once the step's accruals are
+        added; every reported agent receives exactly that, its accumulator is zero afterwards;
+        the others keep their pending amount; get_reward is read exactly once per reported
+        agent, in key order, and for nobody else ---- *)
+Theorem C01_reward_conservation_step : forall sc k m acts sh o m',
+  k <> MTurnPrefix -> ss_do_call sc k m (CStep acts sh) = (ROut o, m') ->
+  NoDup (keys o) -> (forall a, In a (keys o) -> a < length (s_pend (m_sim m))) ->
+  let p1 := add_lists (s_pend (m_sim m)) (r_acc (row_at sc (S (s_t (m_sim m))))) in
+  o_rew o = map (fun a => (a, nth a p1 0%Z)) (keys o) /\
+  (forall a, In a (keys o) -> nth a (s_pend (m_sim m')) 0%Z = 0%Z) /\
+  (forall a, ~ In a (keys o) -> nth a (s_pend (m_sim m')) 0%Z = nth a p1 0%Z) /\
+  s_reads (m_sim m') = s_reads (m_sim m) ++ keys o.
+Proof. exact reward_conservation_step. Qed.
+
+(* ---- the scripted simulation meets the purity hypothesis ---- *)
+Theorem C01_script_done_stable : forall sc, done_stable (script_sim sc).
+Proof. exact ss_done_stable. Qed.
+
+(* ---- the executable checker accepts the model's own history: every script (any number of
+        agents, any learning flags, any rows, also too short ones), every manager, every list
+        of calls, in or out of protocol.  [wf_script]: nothing for all-step and turn-based;
+        for dynamic order at least one agent and, in every row, duplicate-free nominations
+        among the agents.  [wf_call]: the oracle's shuffled list is a permutation of the
+        submission (all-step) resp. the submission itself.  Clauses 101-112, 120-122, 140-146,
+        among them 110/111 = delivered + pending = accrued and one get_reward read per
+        report. ---- *)
+Theorem chk_C01_model : forall sc k cs,
+  wf_script k sc = true -> forallb (wf_call k) cs = true ->
+  let r := ss_run sc k (init (ss_init sc)) cs in
+  chk_hist sc k 1 ghost0 cs (fst r) (s_steps (m_sim (snd r))) (s_reads (m_sim (snd r))) = 0%Z.
+Proof. exact chk_C01_model_all. Qed.
+
 (* ---- non-vacuity: a history on the scripted simulation that is in protocol, meets the
         invariant wherever a step is made, and reaches the error, reject, skip, newly-done,
         live and flush arms of turn_step; a second one reaches the everybody-done arm ---- *)
@@ -293,3 +326,6 @@ Print Assumptions C01_done_at_most_once_turn.
 Print Assumptions C01_done_at_most_once_dyn.
 Print Assumptions C01_trace_is_run.
 Print Assumptions C01_rejects_before_advance_turn_prefix_refuted.
+Print Assumptions C01_reward_conservation_step.
+Print Assumptions C01_script_done_stable.
+Print Assumptions chk_C01_model.
